@@ -427,6 +427,26 @@ pub fn collect_files(rng: &mut Rng, seed: u64, tier: &str, stim: Option<&str>, m
         let at = files.len() * (k + 1) / 5;
         files.insert(at, (assemble(&l), Some(exp_tiles_json(&l)), true));
     }
+    // leaf directories that are large as stored (tens of kilobytes each, well beyond any read-ahead block a reader might
+    // use): 9000 irregular entries in two leaves, uncompressed and gzip
+    for (k, ic) in [(0usize, 1u8), (1, 2)] {
+        let mut l = random_layout(rng, 9000, ic);
+        let mut tiles: Vec<Node> = Vec::new();
+        fn flat(ns: &[Node], out: &mut Vec<Node>) {
+            for n in ns {
+                match n {
+                    Node::Tile(_) => out.push(n.clone()),
+                    Node::Leaf(c) => flat(c, out),
+                }
+            }
+        }
+        flat(&l.root, &mut tiles);
+        let cut = 6000.min(tiles.len());
+        l.root = vec![Node::Leaf(tiles[..cut].to_vec()), Node::Leaf(tiles[cut..].to_vec())];
+        l.order = [0, 1, 2, 3];
+        let at = files.len() * (k + 1) / 3;
+        files.insert(at, (assemble(&l), Some(exp_tiles_json(&l)), true));
+    }
     // fixtures written by the upstream Go writer (the planet fixture has no tile data; thorough only)
     for (k, p) in FIXTURES.iter().enumerate() {
         if k == 2 && tier != "thorough" {
